@@ -154,6 +154,23 @@ func opsOnSelect(s *influxql.SelectStatement, now time.Time) []func() string {
 		func() string { return runOp("GroupByOffset", func() { _, _ = s.Clone().GroupByOffset() }) },
 		func() string { return runOp("Dimensions.Normalize", func() { _, _ = s.Dimensions.Normalize() }) },
 		func() string {
+			// the interval is asked (and memoised) first, then the dimensions are replaced by those of other
+			// statements and asked again (round-4 seeded change C13-1 trusted the memo and asserted the type of
+			// the first time() argument)
+			return runOp("GroupByInterval, Dimensions replaced, GroupByOffset", func() {
+				c := s.Clone()
+				_, _ = c.GroupByInterval()
+				_, _ = c.GroupByOffset()
+				for _, d := range oddDimensions() {
+					c.Dimensions = d
+					_, _ = c.GroupByOffset()
+					_, _ = c.GroupByInterval()
+					_, _ = c.Dimensions.Normalize()
+					_ = c.String()
+				}
+			})
+		},
+		func() string {
 			return runOp("ColumnNames", func() {
 				for _, n := range s.ColumnNames() {
 					_, _ = s.FieldExprByName(n)
@@ -197,6 +214,24 @@ func opsOnSelect(s *influxql.SelectStatement, now time.Time) []func() string {
 		ops = append(ops, opsOnExpr(s.Condition, now)...)
 	}
 	return ops
+}
+
+var oddDimensionsCache []influxql.Dimensions
+
+// oddDimensions: the dimension lists of oddDims that parse.
+func oddDimensions() []influxql.Dimensions {
+	if oddDimensionsCache == nil {
+		for _, d := range append([]string{"time(10s, 3s)", "time(v, 3s)", "time(10, 3s), host", "time('x', 3s)", "time(now(), 3s)"}, oddDims...) {
+			st, err := influxql.ParseStatement("SELECT mean(value) FROM m GROUP BY " + d)
+			if err != nil {
+				continue
+			}
+			if sel, ok := st.(*influxql.SelectStatement); ok {
+				oddDimensionsCache = append(oddDimensionsCache, sel.Dimensions)
+			}
+		}
+	}
+	return oddDimensionsCache
 }
 
 func selectOf(stmt influxql.Statement) *influxql.SelectStatement {
